@@ -3,6 +3,7 @@ import RattrModel.Resolve
 import RattrModel.Blacklist
 import RattrModel.ResolveLocal
 import RattrModel.Spec.ImportEquiv
+import RattrModel.StarChain
 
 namespace Rattr.Driver.C06
 open Lean Rattr Rattr.Driver Rattr.Resolve
@@ -176,5 +177,29 @@ def handleLocal (payload : Json) : R Json := do
     | .ok r => Json.mkObj [("k", "found"), ("inTarget", r.inTarget), ("module", r.module.toS), ("key", dsymJson r.key)]
     | .error e => Json.mkObj [("k", "error"), ("err", match e with
         | .importError => "ImportError" | .moduleNotFound => "ModuleNotFoundError" | .keyError => "KeyError")]))]
+
+open Rattr.StarChain in
+def parseStarFile (j : Json) : R StarFile := do
+  let fid : FileId := { base := str (← asStr (← field j "base")), isInit := (← asBool (← field j "isInit")) }
+  let names := (← asStrList (← field j "names")).map str
+  let stars ← (← asArr (← field j "stars")).mapM parseStmt
+  return { fid := fid, names := names, stars := stars }
+
+open Rattr.StarChain in
+/-- op `star_expand`: `Context.expand_starred_imports` of the file `start` (its unexpanded root context
+given as `ctx`) over the table `files` (module name ↦ file); answers the symbols the expansion
+APPENDED, as `[name, qualified_name]`. -/
+def handleStarExpand (payload : Json) : R Json := do
+  let files ← (← asArr (← field payload "files")).mapM fun e => do
+    match (← asArr e) with
+    | [n, f] => return (str (← asStr n), (← parseStarFile f))
+    | _ => throw "files entry must be [module, file]"
+  let start ← parseStarFile (← field payload "start")
+  let ctx ← (← asArr (← field payload "ctx")).mapM parseMSym
+  let out := expandFile files (fuelFor files start) start ctx
+  return jList ((out.drop ctx.length).map fun m =>
+    match m with
+    | .imp n q => Json.arr #[Json.str n.toS, Json.str q.toS]
+    | x => Json.arr #[Json.str x.key.toS, Json.null])
 
 end Rattr.Driver.C06
